@@ -172,6 +172,11 @@ void bufr_free_dataset ( BUFR_Dataset *dts )
       free( dts->header_string );
       dts->header_string = NULL;
       }
+   if ( dts->s1.data )
+      {
+      free( dts->s1.data );
+      dts->s1.data = NULL;
+      }
    free( dts );
    }
 
